@@ -213,7 +213,7 @@ PROPS = {
                    '"variables untouched on error" on malformed and ordinary chains.',
         level_note=CHAIN_NOTE + ' Panics inside reflect/runtime on exotic values are exercised, not proved; defects D13 D14 D19 D22-D25 were repaired in /repo.',
         design_ref='DESIGN.md section 8 (C04)',
-        assumptions=['fuel of the worklist loops is sufficient: validated by correspondence (exhaustion would show as a disagreement), not proved'],
+        assumptions=['fuel of the selection loops is proved sufficient (FuelProofs.v); for the topological sort of Reorder it is validated by correspondence (exhaustion would show as a disagreement)'],
     ),
     'C05': dict(
         monitor=True,
@@ -245,8 +245,10 @@ PROPS = {
     ),
     'C07': dict(
         monitor=True,
-        streams=[chain_stream(8000, 300000, _nt_c07)],
-        rule=CHAIN_RULE + 'C07 non-trivial: the chain binds and includes a fallible (static or run) injector',
+        streams=[chain_stream(8000, 300000, _nt_c07), chain_stream(3000, 100000, _nt_c07, name='femotif')],
+        rule=CHAIN_RULE + 'stream femotif: small shaped chains - a fallible injector carrying Memoize/Cacheable annotations on an invoke argument that may or may not be '
+             'usable as a map key, under an optional wrapper receiving error; two or three fallible static injectors in a row, the first failing or not, with and '
+             'without an init function returning error and a per-invocation consumer of error. C07 non-trivial: the chain binds and includes a fallible (static or run) injector',
         level_text='Theorems sem_fallible_cut / sem_fallible_pass (reference semantics: a failing fallible injector makes the rest irrelevant and yields '
                    'the all-zero up environment plus error; a nil TerminalError is transparent), exec_refines_sem and static_refines (the machine '
                    'implements it, run and static part); Coq, no axioms. Tied to /repo by the chain correspondence with failure masks over sessions.',
@@ -388,8 +390,9 @@ PROPS = {
     ),
     'C15': dict(
         monitor=True,
-        streams=[chain_stream(8000, 300000, _nt_c15)],
-        rule=CHAIN_RULE + 'C15 non-trivial: the chain binds and some provider receives a returned value; an independent Coq monitor checks on the implementation\'s plan '
+        streams=[chain_stream(8000, 300000, _nt_c15), chain_stream(3000, 100000, lambda c, o: True, name='shadowmotif')],
+        rule=CHAIN_RULE + 'stream shadowmotif: stacks of two to four wrappers returning the same type, some marked AllowReturnShadowing for it, over a final function '
+             'that may or may not return it (non-trivial: every case; about half bind, a third are refused for shadowing). C15 non-trivial: the chain binds and some provider receives a returned value; an independent Coq monitor checks on the implementation\'s plan '
              'that every returned type has an included receiver above and that no wrapper shadows unannounced',
         level_text='Theorems C15_returns_received (from select_sound: in a chain that binds every returned, non-ConsumptionOptional type of an included provider has an '
                    'included receiver), C15_return_flow_is_must_consume, check_shadowing_sound (a passing shadowing check means no un-announced override of an '
@@ -413,12 +416,15 @@ PROPS = {
     ),
     'C17': dict(
         monitor=True,
-        streams=[pair_stream('displace', 5000, 150000), chain_stream(4000, 100000, _nt_bound, name='reorder')],
+        streams=[pair_stream('displace', 5000, 150000), chain_stream(4000, 100000, _nt_bound, name='reorder'),
+                 chain_stream(3000, 100000, _nt_bound, name='reorderwrap')],
         rule='stream displace: a chain (no fallible failures, wrappers call inner() once, so that behaviour does not depend on the global serial) paired with the '
              'same chain with one plain injector marked Reorder and listed at another position; monitor (when the base binds with every provider included, the '
              'injector is the only producer of its output types and each of its inputs has one source): the variant binds, includes the same providers and every '
              'call receives each value from the same producer (logs compared with serials stripped). stream reorder: ordinary chains with Reorder sprinkled on '
-             'injectors/wrappers; monitor: providers not marked Reorder keep their listed relative order and all call arguments equal the reference semantics\'',
+             'injectors/wrappers; monitor: providers not marked Reorder keep their listed relative order and all call arguments equal the reference semantics\'. '
+             'stream reorderwrap: chains without static providers in which most wrappers and fallible injectors are Reorder\'d and Required, so that the sort '
+             'places per-invocation providers around the invoke function (the region where plan_wf is validated, not proved: about 18% of the bound cases)',
         level_text='Theorems reorder_perm (the reordered list is a permutation of the input, all lists), C17_non_reorder_keep_listed_order '
                    '(reorder_keeps_listed_order: the providers not marked Reorder appear in the reordered list in exactly their listed order, for every list, '
                    'every constraint graph and any fuel; proved by an invariant of the topological sort - the next non-Reorder provider emitted, through a queue or '
